@@ -1,22 +1,18 @@
 package mc
 
 import (
-	"flag"
 	"os"
+
+	"github.com/chrislusf/seaweedfs/weed/glog"
 )
 
-// QuietGlog silences the repository's glog without creating log files: glog is
-// told to log to stderr only, and the Go-level os.Stderr is pointed at
-// /dev/null.  Runtime panics and fatal errors still reach the real fd 2 (they
-// do not go through os.Stderr), so worker crash attribution keeps working.
-// Set VERIF_GLOG=1 to keep the log.
+// QuietGlog silences the repository's glog (INFO/WARNING/ERROR go nowhere: no
+// stderr noise, no log files in the temp dir) through the export-only hook
+// glog.DiscardLogsV.  FATAL lines and runtime panics still reach stderr, so
+// worker crash attribution keeps working.  Set VERIF_GLOG=1 to keep the log.
 func QuietGlog() {
 	if os.Getenv("VERIF_GLOG") != "" {
 		return
 	}
-	flag.Set("logtostderr", "true")
-	flag.Set("alsologtostderr", "false")
-	if f, err := os.OpenFile(os.DevNull, os.O_WRONLY, 0); err == nil {
-		os.Stderr = f
-	}
+	glog.DiscardLogsV()
 }
